@@ -70,6 +70,8 @@ def decorate(behs, rng):
                 st["hide"] = True
             if st["op"] == "clone" and rng.random() < 0.35:
                 st["raw"] = rng.choice(["try_close", "drop_span"])
+            if st["op"] == "exit" and rng.random() < 0.2:
+                st["unwind"] = True
             if st["op"] == "drop":
                 if rng.random() < 0.5:
                     st["front"] = True
